@@ -734,6 +734,8 @@ def check_C15(tier, seed, res, replay=None):
         return do_replay(res, rd, replay)
     rng = random.Random(seed)
     cases = single_cases(tier, rng, "witness", 0.15, nums=("id", "rev", "sparse", "perm", "huge", "top", "pow2"))
+    for k in load_killers("witness.ndjson"):
+        cases.append(dict(k, op="witness", syms=gen.syms_of(k["A"])))
     nt = lambda c: vlib.ta_nonempty(c["A"])
     res.count_cases(cases, nt)
     res.add_samples([c for c in cases if nt(c)][:3])
@@ -743,3 +745,14 @@ def check_C15(tier, seed, res, replay=None):
     pick = [c for c in cases if c["A"]["rules"]]
     rng.shuffle(pick)
     cli_arm.judge(res, rd, "c15", cli_arm.ta_op_events([{"id": c["id"], "cmd": "witness", "A": c["A"]} for c in pick[:6000 if tier == "thorough" else 1200]], rd), "TraceTA.tla")
+    # step-level binding of the Layer-2 model Candidate (hook: Start / Pop in GetCandidateTree)
+    pool = [c for c in cases if c["A"]["rules"] and c.get("src") != "wide"]
+    rng.shuffle(pool)
+    sample = [{"id": c["id"], "op": "candtrace", "A": c["A"], "syms": c.get("syms", [])} for c in pool[:12000 if tier == "thorough" else 2500]]
+    bind_model(res, rd, "bind", "Candidate", sample, "TraceCandidate.tla", "TraceCandidate.cfg")
+    # Layer 2: the witness search as a work-list machine (missing-children sets, early exit, `remaining` counter), every automaton
+    # of the bound, every pop order and every order of the rules inside a pop
+    model_with_mutants(res, "Candidate.tla", "Candidate3.cfg" if tier == "thorough" else "Candidate4.cfg",
+                       ["ExitBeforeRecord", "MultisetChildren", "NoLeafWork"] if tier == "thorough" else [], "Candidate")
+    if tier == "thorough":
+        model_with_mutants(res, "Candidate.tla", "Candidate4.cfg", [], "Candidate")
